@@ -96,6 +96,8 @@ type attempts struct {
 	issues  []string
 	cancel  context.CancelFunc
 	wg      sync.WaitGroup
+	ncond   int // loop-condition evaluations so far
+	epoch   int // subscription round of the pipeline (mode twice)
 }
 
 // decoy is a source that must never be subscribed.
@@ -120,16 +122,16 @@ func (a *attempts) outcome(i int) ROutcome {
 // source returns a cold observable; fixed > 0: this observable IS attempt number `fixed` (Concat / Catch fallback / resume-next sources)
 // and must be subscribed at most once; fixed = 0: every subscription is the next attempt.
 func (a *attempts) source(fixed int) ro.Observable[any] {
-	subscribedOnce := false
+	subscribedIn := -1 // the round in which this fixed source was subscribed
 	return ro.NewUnsafeObservableWithContext(func(ctx context.Context, dest ro.Observer[any]) ro.Teardown {
 		a.mu.Lock()
 		a.started++
 		n := a.started
 		if fixed > 0 {
-			if subscribedOnce {
+			if subscribedIn == a.epoch {
 				a.issues = append(a.issues, fmt.Sprintf("source %d subscribed twice", fixed))
 			}
-			subscribedOnce = true
+			subscribedIn = a.epoch
 			if fixed != n {
 				a.issues = append(a.issues, fmt.Sprintf("source %d subscribed as attempt number %d (out of order)", fixed, n))
 			}
@@ -194,16 +196,14 @@ func buildResub(c *RCase, a *attempts) (ro.Observable[any], error) {
 type opFn = func(ro.Observable[any]) ro.Observable[any]
 
 func buildResubOp(c *RCase, a *attempts) (opFn, ro.Observable[any], error) {
-	ncond := 0
-	var cmu sync.Mutex
 	cond := func() bool {
-		cmu.Lock()
-		defer cmu.Unlock()
+		a.mu.Lock()
+		defer a.mu.Unlock()
 		v := false
-		if ncond < len(c.Conds) {
-			v = c.Conds[ncond]
+		if a.ncond < len(c.Conds) {
+			v = c.Conds[a.ncond]
 		}
-		ncond++
+		a.ncond++
 		return v
 	}
 	condI := func(i int64) bool {
@@ -280,6 +280,29 @@ func ReplayResub(idx int, c *RCase, mode string, out *[]Mismatch) {
 	if a.started != 0 {
 		add("sub", "a source was subscribed at construction time")
 	}
+	rounds := 1
+	if mode == "twice" {
+		// C15 / C12: the SAME pipeline subscribed again after the first run is over starts from scratch (indexes, counters, attempt numbers)
+		if c.CancelAt != 0 {
+			return
+		}
+		rounds = 2
+	}
+	for round := 0; round < rounds; round++ {
+		if round > 0 {
+			a.mu.Lock()
+			a.started, a.live, a.issues, a.ncond = 0, 0, nil, 0
+			a.epoch++
+			a.mu.Unlock()
+		}
+		if !replayResubRound(c, a, o, base, mode, add) {
+			return
+		}
+	}
+}
+
+// replayResubRound subscribes the pipeline once and compares; false = stop (a hang was reported).
+func replayResubRound(c *RCase, a *attempts, o ro.Observable[any], base context.Context, mode string, add func(class, detail string)) bool {
 	var mu sync.Mutex
 	var log []string
 	nilctx := false
@@ -320,7 +343,7 @@ func ReplayResub(idx int, c *RCase, mode string, out *[]Mismatch) {
 	case sub = <-done:
 	case <-time.After(10 * time.Second):
 		add("hang", "Subscribe did not return within 10s although every attempt ended")
-		return
+		return false
 	}
 	played := make(chan struct{})
 	go func() { a.wg.Wait(); close(played) }()
@@ -328,7 +351,7 @@ func ReplayResub(idx int, c *RCase, mode string, out *[]Mismatch) {
 	case <-played:
 	case <-time.After(10 * time.Second):
 		add("hang", "the producer of an attempt is still blocked inside the pipeline 10s after Subscribe returned")
-		return
+		return false
 	}
 	if mode == "async" && sub != nil {
 		// asynchronous attempts: the operators wait inside Subscribe, so everything is over when it returns
@@ -369,4 +392,5 @@ func ReplayResub(idx int, c *RCase, mode string, out *[]Mismatch) {
 	if live != 0 {
 		add("torn", fmt.Sprintf("%d attempt(s) still subscribed after the stream ended and Subscribe returned", live))
 	}
+	return true
 }
